@@ -1,0 +1,75 @@
+//go:build verif
+
+package gojq
+
+// Hooks for the simulation harness under /verif. They exist only with the
+// verif build tag; see verif_off.go for the shipped constant-false versions.
+
+// Optimization sites of the compiler.
+const (
+	verifSiteAssignSetpath = iota
+	verifSiteBindExp
+	verifSiteIfEmptyCond
+	verifSiteIfConst
+	verifSiteIndexKey
+	verifSiteConstObject
+	verifSiteConstArray
+	verifSiteUnaryNumber
+	verifSiteInlineIdentity
+	verifSiteInlineOne
+	verifSiteCallExp
+	verifSiteTailRec
+	verifSitePeepPop
+	verifSitePeepConst
+	verifSitePeepJump
+	verifSiteCount
+)
+
+// VerifSiteNames names the optimization sites, indexed by site.
+var VerifSiteNames = [verifSiteCount]string{
+	"assign-setpath", "bind-expbegin", "if-empty-cond", "if-const-branches",
+	"index-constant-key", "constant-object", "constant-array", "signed-number",
+	"inline-identity-arg", "inline-one-instruction-arg", "call-expbegin",
+	"tail-call", "peephole-pop", "peephole-const", "peephole-jump",
+}
+
+// VerifSkip, if not nil, is asked at every visit of an optimization site
+// whether the rewrite should be skipped. It must only be set while no other
+// goroutine compiles.
+var VerifSkip func(site int) bool
+
+func verifSkip(site int) bool {
+	return VerifSkip != nil && VerifSkip(site)
+}
+
+func verifSkipInline(n int) bool {
+	switch n {
+	case 2:
+		return verifSkip(verifSiteInlineIdentity)
+	case 3:
+		return verifSkip(verifSiteInlineOne)
+	default:
+		return false
+	}
+}
+
+// VerifConstants returns the values embedded in the instructions of a code.
+func VerifConstants(c *Code) []any {
+	var vs []any
+	for _, code := range c.codes {
+		switch code.v.(type) {
+		case []any, map[string]any:
+			vs = append(vs, code.v)
+		}
+	}
+	return vs
+}
+
+// VerifOps returns the names of the instructions of a code.
+func VerifOps(c *Code) []string {
+	ops := make([]string, len(c.codes))
+	for i, code := range c.codes {
+		ops[i] = code.op.String()
+	}
+	return ops
+}
